@@ -373,8 +373,11 @@ def _check_object(out, case):
   for lf in _LIST_FIELDS + ("body",):
     v = cfrag["f"].get(lf)
     if isinstance(v, list):
-      n = len(R.expand_list(v))
+      ex = R.expand_list(v)
+      n = len(ex)
       out.label("list:%s" % ("0" if n == 0 else "1" if n == 1 else "2-9" if n < 10 else "10+"))
+      for ek in sorted({e["k"] for e in ex[:64] if isinstance(e, dict) and "k" in e}):
+        out.label("contains:" + ek)
   # Equality is taken modulo two representation choices the library documents: vendor actions inside a
   # container decode as ofp_action_vendor_generic (there is no Nicira action dispatch), and an NXM entry given
   # with an all-ones mask is written, hence decoded, without mask.
@@ -1039,7 +1042,9 @@ def _strategy_parts(tier):
   prop = _wrap(G.queue_prop(safe=False))
   queue = _wrap(G.packet_queue(safe=False).map(lambda f: {"k": "ofp_packet_queue", "f": f}))
   port = _wrap(G.phy_port().map(lambda f: {"k": "ofp_phy_port", "f": f}))
-  return st.one_of(act, act, body_req, body_rep, body_rep, prop, queue, port)
+  table = {"act": act, "body_req": body_req, "body_rep": body_rep, "prop": prop, "queue": queue, "port": port}
+  # (one_of() drops repeated branches, so the weights are drawn explicitly)
+  return st.sampled_from(["act"] * 6 + ["body_req"] * 2 + ["body_rep"] * 3 + ["prop", "queue", "port"]).flatmap(table.get)
 
 
 def _strategy_match(tier):
@@ -1052,7 +1057,8 @@ def _strategy_nx(tier):
   ent = _wrap(G.nxm_entry().map(lambda e: {"k": "nxm_entry", "f": e}))
   mt = _wrap(st.tuples(G.nx_match_entries(), st.sampled_from(["parts", "parts", "append", "attr"])).map(
       lambda t: {"k": "nx_match", "f": {"entries": t[0], "$via": t[1]}}))
-  return st.one_of(_wrap(G.nx_message()), _wrap(G.nx_message()), _wrap(G.nx_action()), _wrap(G.nx_action()), ent, mt)
+  table = {"msg": _wrap(G.nx_message()), "act": _wrap(G.nx_action()), "ent": ent, "mt": mt}
+  return st.sampled_from(["msg"] * 3 + ["act"] * 4 + ["ent", "mt"]).flatmap(table.get)
 
 
 def plan(tier):
